@@ -194,3 +194,13 @@ package forwarder
 //@                  out_replace.OriginalMessage == msg.OriginalMessage && out_replace.OriginalAttestation == msg.OriginalAttestation &&
 //@                  out_replace.NewDestinationCaller == msg.NewDestinationCaller && out_replace.NewMintRecipient == msg.NewMintRecipient
 //@   ensures[C05] out_n <= old(out_n) + 1
+
+// ---------------------------------------------------------------------------------------------
+// Export (C17): the exported lists are enumerations of the stored sets (iterator rule over Walk).
+// ---------------------------------------------------------------------------------------------
+//@ macro pset(f) = ks_i32[f.pausedProtocols]
+//@ func (f *Forwarder) GetPausedProtocols(ctx) (ids, err)
+//@   requires[inv] f != nil
+//@   walk 0 invariant[C17] len(paused) == widx && forall j int :: 0 <= j && j < widx ==> paused[j] == enumAtI32(pset(f), j)
+//@   ensures[C17] err == nil ==> len(ids) == enumLenI32(pset(f)) && forall j int :: 0 <= j && j < len(ids) ==> ids[j] == enumAtI32(pset(f), j)
+//@   ensures[C17] ks_i32 == old(ks_i32)
